@@ -77,6 +77,7 @@ func c02Count(maxSteps int) int {
 }
 
 func c02(r *mon.Run) {
+	var lfc mon.Workload
 	maxSteps := tierPick(r, 3, 4)
 	r.Rule = "exhaustive: every chain of 1..K steps (K=3 quick, 4 thorough) over 17 steps {.a .\"a\" .b [0] [-1] [*] [] [?a] [?@] .* [1:] [::-1] .[a,b] .{x:a} .type(@) .to_string(@) .not_null(a,'z')} x heads {a, @, bare} x terminators {end, | [0], (…).a, (…)[0], || b, == b, evaluated twice [c, c]} x a 38-document universe (incl. strings holding JSON text at the root) (empty / null-containing / heterogeneous / nested arrays and objects); " +
 		"plus every chain of 1-2 steps over arrays of 15...1025 elements (thorough to 65536) in four element patterns; plus seeded random nested projections with filters and slices on random typed documents; plus every chain of <= 4 navigational steps on 6 documents given as Go-typed slices ([][][]float64, [][]string, []map…; the reflection twins of the projection loops) against the model on the generic form. node-kind pairs: 49 representatives of every node kind in each of the 38 single-hole grammar contexts and in every context of every context, on 3 documents (the trees this property owns: a projection, no function or operator). Oracle: ref.RefSet with member-order nondeterminism as a result set. Non-trivial = distinct (expression, document) with a projection whose expected result is a non-empty array, or null because the left side has the wrong type (counted separately)."
@@ -353,7 +354,46 @@ func c02(r *mon.Run) {
 			res, _, _ := cx.runOne(tree, expr, doc)
 			c02Account(t, tree, expr, doc, res, i)
 		}}
-	r.Exec(exh, rnd, typed, lng, fcw, fnw, kindPairsWorkload(r, "C02"), hw)
+	// a LIST as a filter condition (a nested filter, a projection, a slice, a flatten, a multi-select, an object wildcard): it is
+	// true-like when it is not empty, whatever it holds - also when every value in it is false-like
+	{
+		f, lit, raw, cur, ch := gen.Field, gen.LitJSON, gen.Raw, gen.Current, gen.Chain
+		hostDoc := docs.J(`{"hosts":[{"name":"a","checks":[{"kind":"disk","ok":false},{"kind":"net","ok":true}],"o":{"p":false,"q":null}},{"name":"b","checks":[{"kind":"disk","ok":false}],"o":{"p":""}},{"name":"c","checks":[{"kind":"net","ok":true},{"kind":"disk","ok":""}],"o":{}},{"name":"d","checks":[],"o":{"p":null}},{"name":"e","checks":[{"kind":"disk","ok":null},{"kind":"disk"}]},{"name":"f","checks":[{"kind":"disk","ok":true}],"o":{"p":[]}},{"name":"g","checks":[{"kind":"disk","ok":[]},{"kind":"disk","ok":{}}],"o":{"p":0}},{"name":"h"}]}`)
+		isDisk := func() *gen.Expr { return gen.Cmp("==", f("kind"), raw("disk")) }
+		lconds := []func() *gen.Expr{
+			func() *gen.Expr { return ch(f("checks"), gen.StFilter(isDisk()), gen.StField("ok")) }, func() *gen.Expr { return ch(f("checks"), gen.StListStar(), gen.StField("ok")) }, func() *gen.Expr { return ch(f("checks"), gen.StFlatten(), gen.StField("ok")) },
+			func() *gen.Expr { return ch(f("checks"), gen.StFilter(f("ok"))) }, func() *gen.Expr { return ch(f("checks"), gen.StFilter(gen.Not(f("ok"))), gen.StField("kind")) }, func() *gen.Expr { return ch(f("checks"), gen.StListStar()) },
+			func() *gen.Expr { return gen.Not(ch(f("checks"), gen.StFilter(isDisk()), gen.StField("ok"))) }, func() *gen.Expr { return ch(f("checks"), gen.StFilter(gen.Cmp("==", f("kind"), raw("x")))) }, func() *gen.Expr { return ch(f("checks"), gen.StIndex(0), gen.StField("ok")) },
+			func() *gen.Expr { return ch(f("checks"), gen.StListStar(), gen.StField("missing")) }, func() *gen.Expr { return gen.And(ch(f("checks"), gen.StFilter(isDisk()), gen.StField("ok")), f("name")) }, func() *gen.Expr { return ch(f("checks"), gen.StSliceS("", "1", ""), gen.StField("ok")) },
+			func() *gen.Expr { return ch(f("o"), gen.StStar()) }, func() *gen.Expr { return ch(f("o"), gen.StStar(), gen.StField("x")) }, func() *gen.Expr { return ch(f("checks"), gen.StFilter(isDisk()), gen.StMultiList(f("ok"))) },
+			func() *gen.Expr { return ch(f("checks"), gen.StFilter(isDisk()), gen.StMultiHash(keyA("o"), []*gen.Expr{f("ok")})) }, func() *gen.Expr { return gen.MultiList(f("missing")) }, func() *gen.Expr { return gen.MultiList(lit("false")) },
+			func() *gen.Expr { return gen.Or(ch(f("checks"), gen.StFilter(isDisk()), gen.StField("ok")), lit("false")) }, func() *gen.Expr { return ch(f("checks"), gen.StFilter(ch(cur(), gen.StMultiList(f("ok"))))) }, func() *gen.Expr { return gen.Func("to_array", f("missing")) },
+			func() *gen.Expr { return ch(f("checks"), gen.StFilter(isDisk()), gen.StFunc("not_null", f("ok"), lit("false"))) }, func() *gen.Expr { return gen.Func("map", gen.ExpRef(f("ok")), gen.Or(f("checks"), lit("[]"))) }, func() *gen.Expr { return gen.Func("values", gen.Or(f("o"), lit("{}"))) },
+			func() *gen.Expr { return gen.Cmp("==", ch(f("checks"), gen.StFilter(isDisk()), gen.StField("ok")), lit("[false]")) }, func() *gen.Expr { return gen.Not(gen.Not(ch(f("checks"), gen.StListStar(), gen.StField("ok")))) },
+		}
+		ws := mon.Workload{Name: "lists-as-filter-conditions", N: len(lconds) * 5,
+			Do: func(i int, t *mon.Tally) {
+				c := lconds[i/5]
+				var tree *gen.Expr
+				switch i % 5 {
+				case 0:
+					tree = ch(f("hosts"), gen.StFilter(c()), gen.StField("name"))
+				case 1:
+					tree = gen.Func("length", ch(f("hosts"), gen.StFilter(c())))
+				case 2:
+					tree = ch(f("hosts"), gen.StFilter(gen.Not(gen.Paren(c()))), gen.StField("name"))
+				case 3:
+					tree = ch(f("hosts"), gen.StListStar(), gen.StMultiList(f("name"), gen.And(c(), lit("true")), gen.Or(c(), raw("none"))))
+				default:
+					tree = gen.Pipe(ch(f("hosts"), gen.StFilter(c())), ch(nil, gen.StIndex(0), gen.StField("name")))
+				}
+				cx := &caseCtx{r, t, "lists-as-filter-conditions", i}
+				res, _, _ := cx.runBoth(tree, gen.SpellTight(tree), hostDoc)
+				c02Account(t, tree, gen.SpellTight(tree), hostDoc, res, i)
+			}}
+		lfc = ws
+	}
+	r.Exec(exh, rnd, typed, lng, fcw, fnw, kindPairsWorkload(r, "C02"), hw, lfc)
 }
 
 func c02Account(t *mon.Tally, tree *gen.Expr, expr string, doc interface{}, res ref.Result, i int) {
